@@ -254,7 +254,12 @@ func (g *opGen) mirrorRoot(root *ast.Definition, fields []*ast.FieldDefinition) 
 	args := g.arguments(f.Arguments)
 	seed := g.r.Int63()
 	main := g.r
-	defer func() { g.r = main; g.mirror = false }()
+	shared := td.Kind == ast.Object && main.Intn(3) == 0
+	savedInline := g.p.PInline
+	defer func() { g.r = main; g.mirror = false; g.p.PInline = savedInline }()
+	if shared {
+		g.p.PInline = 0.3 // the shared fragment also holds inline fragments (type conditions inside a named fragment)
+	}
 	g.r = rand.New(rand.NewSource(seed))
 	s1 := g.selectionSet(td, g.p.Depth-1)
 	g.r = rand.New(rand.NewSource(seed))
@@ -264,7 +269,7 @@ func (g *opGen) mirrorRoot(root *ast.Definition, fields []*ast.FieldDefinition) 
 	if s1 != s2 {
 		g.tag("mirror-deviates")
 	}
-	if td.Kind == ast.Object && main.Intn(3) == 0 {
+	if shared {
 		// both copies spread one named fragment (the second copy's deviations are dropped)
 		g.nfrag++
 		name := fmt.Sprintf("M%d", g.nfrag)
